@@ -554,16 +554,18 @@ def reduce_minmax(ex, st, sp, is_max, node, default=None, has_default=False):
         ex.need(st, sp.n > 0, "ValueError", node)
     else:
         raise Unsupported("min/max default over symbolic sequence")
-    es = ExtSym(fresh_name("Max" if is_max else "Min"), lambda kk: to_real_term(sp.elem(kk)), is_max)
+    # quantify over the values of the loop variable (candle positions) when known: instantiation at candle
+    # positions then hits the right instances, and code / specification extrema over one window coincide
+    lo, hi, body_abs = canonical_range(sp, lambda kk: to_real_term(sp.elem(kk)))
+    es = ExtSym(fresh_name("Max" if is_max else "Min"), body_abs, is_max)
     if not hasattr(ex.ctx, "exts"):
         ex.ctx.exts = []
     ex.ctx.exts.append(es)
-    lo, hi = z3.IntVal(0), sp.n
-    st.inst_terms.append(("ext", es, lo, hi))
     t = es.val(lo, hi)
     # attained
     w = es.wit(lo, hi)
     st.assume(z3.And(w >= lo, w < hi, t == es.body(w)))
+    st.inst_terms.append(("term", w))
     st.qassumes.append(
         QAssume(lambda j, es=es, lo=lo, hi=hi, t=t: z3.Implies(z3.And(j >= lo, j < hi), (t >= es.body(j)) if es.is_max else (t <= es.body(j))),
                 "extremum-bounds-all")
